@@ -22,7 +22,9 @@ _OBJ = {}
 class _G:
     """a callable-like object carrying globals for a postponed annotation"""
     def __init__(self, ua):
-        self.__globals__ = {'T': core.Ann(2 * ua)}
+        # ua >= 1000: the spelling `T` cannot be evaluated in these globals (a TYPE_CHECKING-only import, say);
+        # such an annotation has no value: it equals only itself
+        self.__globals__ = {'T': core.Ann(2 * ua)} if ua < 1000 else {}
 
 
 def make_obj(desc):
@@ -257,6 +259,13 @@ def rt_sigcmp(req):
                         a, b = run(u), run(p)
                         if a != b:
                             problems.append('%s(%d, %s): upgraded %s, plain %s on %s' % (meth, n, K, a, b, u))
+        r = u.replace(parameters=(q for q in u.parameters.values()))
+        if list(r.parameters.values()) != list(u.parameters.values()):
+            problems.append('replace-iterator: replace(parameters=<generator over %d parameters>) gives %s; an inspect.Signature '
+                            'accepts any iterable' % (len(u.parameters), r))
+        r = S.UpgradedSignature((q for q in u.parameters.values()), sources={'+depths': {}})
+        if list(r.parameters.values()) != list(u.parameters.values()):
+            problems.append('replace-iterator: UpgradedSignature(<generator over %d parameters>) gives %s' % (len(u.parameters), r))
         r = u.replace()
         if type(r) is not S.UpgradedSignature or r.sources is not u.sources or \
                 r.upgraded_return_annotation is not u.upgraded_return_annotation:
@@ -272,6 +281,38 @@ def rt_sigcmp(req):
             q = prm.replace(upgraded_annotation=S.EmptyAnnotation)
             if q.upgraded_annotation is not S.EmptyAnnotation:
                 problems.append('Parameter.replace(upgraded_annotation=...) not honoured')
+            # every override keyword on its own: the overridden field takes the given value, every other field
+            # (upgraded and inherited ones) keeps its own
+            fields = dict(sources=lambda x: x.sources, source_depths=lambda x: x.source_depths,
+                          upgraded_annotation=lambda x: x.upgraded_annotation, function=lambda x: x._function,
+                          name=lambda x: x.name, kind=lambda x: x.kind, default=lambda x: x.default,
+                          annotation=lambda x: x.annotation)
+            fresh = dict(sources=['S'], source_depths={'S': 7}, upgraded_annotation=S.EmptyAnnotation, function=rt_sigcmp,
+                         name=prm.name + '_', annotation='A')
+            for kw_, val in fresh.items():
+                q = prm.replace(**{kw_: val})
+                if type(q) is not S.UpgradedParameter:
+                    problems.append('Parameter.replace(%s=...) returned a %s' % (kw_, type(q).__name__))
+                    continue
+                for f_, get in fields.items():
+                    want = val if f_ == kw_ else get(prm)
+                    if get(q) is not want and get(q) != want:
+                        problems.append('replace-field: Parameter.replace(%s=...) left .%s = %r, expected %r (on %s)' % (
+                            kw_, f_, get(q), want, prm))
+        sfresh = dict(sources={'+depths': {}}, upgraded_return_annotation=S.EmptyAnnotation, return_annotation='R',
+                      parameters=list(u.parameters.values())[:1])
+        sfields = dict(sources=lambda x: x.sources, upgraded_return_annotation=lambda x: x.upgraded_return_annotation,
+                       return_annotation=lambda x: x.return_annotation, parameters=lambda x: list(x.parameters.values()))
+        for kw_, val in sfresh.items():
+            q = u.replace(**{kw_: val})
+            if type(q) is not S.UpgradedSignature:
+                problems.append('Signature.replace(%s=...) returned a %s' % (kw_, type(q).__name__))
+                continue
+            for f_, get in sfields.items():
+                want = val if f_ == kw_ else get(u)
+                if get(q) is not want and get(q) != want:
+                    problems.append('replace-field: Signature.replace(%s=...) left .%s = %r, expected %r (on %s)' % (
+                        kw_, f_, get(q), want, u))
     return ('ok', tuple(problems[:3]))
 
 
@@ -824,15 +865,31 @@ def rt_wrap(req):
     if ret.endswith(', )'):
         ret = 'return ("f",)'
     for i, own in enumerate(own_list):
-        ownsrc = ', '.join('%s=%d' % (n, 50 + i) for n in own)
-        sig = 'func, *args' + (', ' + ownsrc if own else '') + ', **kwargs'
+        # own parameters of the wrapper: names starting with 'q' are required positional ones (before *args),
+        # the others keyword-only with a default
+        posown = [n for n in own if n.startswith('q')]
+        ownsrc = ', '.join('%s=%d' % (n, 50 + i) for n in own if not n.startswith('q'))
+        sig = 'func, ' + ''.join('%s, ' % n for n in posown) + '*args' + (', ' + ownsrc if ownsrc else '') + ', **kwargs'
         body = 'return ("w%d", %s func(*args, **kwargs))' % (i, ''.join('%s, ' % n for n in own))
         deco = {'decorator': '@wrappers.decorator', 'wrapper_decorator': '@wrappers.wrapper_decorator'}[kind]
         lines += [deco, 'def deco%d(%s):' % (i, sig), '    ' + body]
-        lines += ['def hand%d(func, *args%s, **kwargs):' % (i, (', ' + ownsrc) if own else ''), '    ' + body]
+        lines += ['def hand%d(%s):' % (i, sig), '    ' + body]
     fdef = core.def_source(fparams, name='f', body=ret).rstrip('\n').split('\n')
     decos = ['@deco%d' % i for i in range(depth)]
-    if placement == 'function':
+    if placement == 'function_peek':
+        # the stack is built one level at a time and every intermediate object is introspected before the next
+        # decorator is applied (what interactive use, or a framework registering callbacks, does)
+        lines += fdef
+        lines += ['import inspect, sigtools as _st']
+        for i in reversed(range(depth)):
+            lines += ['f = deco%d(f)' % i, '_st.signature(f); inspect.signature(f)']
+        lines += core.def_source(fparams, name='plain', body=ret).rstrip('\n').split('\n')
+        lines += ['target = f']
+        hand = 'plain'
+        for i in reversed(range(depth)):
+            hand = 'functools.partial(hand%d, %s)' % (i, hand)
+        lines += ['hand = ' + hand]
+    elif placement == 'function':
         lines += decos + fdef
         lines += core.def_source(fparams, name='plain', body=ret).rstrip('\n').split('\n')
         lines += ['target = f']
@@ -866,8 +923,9 @@ def rt_wrap(req):
             problems.append('inspect-differs: sigtools %s, inspect %s\n%s' % (sig, isig, src))
         R = [(p.name, core.KIND_NAME[p.kind], None if p.default is p.empty else 1) for p in sig.parameters.values()]
         names = [p[0] for p in fps] + [n for own in own_list for n in own] + ['zz']
-        inputs = [[(p[0], p[1], p[2]) for p in fps]] + [[(n, 'ko', 1) for n in own] for own in own_list]
-        npos = sum(1 for p in fps if p[1] in ('po', 'pk'))
+        inputs = [[(p[0], p[1], p[2]) for p in fps]] + \
+                 [[(n, 'pk', None) if n.startswith('q') else (n, 'ko', 1) for n in own] for own in own_list]
+        npos = sum(1 for p in fps if p[1] in ('po', 'pk')) + sum(1 for own in own_list for n in own if n.startswith('q'))
         ran = 0
         for n in range(npos + 2):
             for r in range(min(3, len(names)) + 1):
@@ -911,7 +969,10 @@ def rt_wrap(req):
             if usig is not None:
                 up = [p.name for p in usig.parameters.values()]
                 bp = [p.name for p in sig.parameters.values()]
-                if up[1:] != bp or up[:1] != ['self']:
+                # binding removes exactly one parameter, the decorated function's first one (`self`): it is the first
+                # of the stack's signature too unless a wrapper puts required positional parameters of its own in front
+                npq = sum(1 for own in own_list for n in own if n.startswith('q'))
+                if up.count('self') != 1 or [x for x in up if x != 'self'] != bp or up.index('self') != npq:
                     problems.append('bind-removes-first: unbound %s, bound %s\n%s' % (usig, sig, src))
     finally:
         progs.unload(fname)
@@ -922,11 +983,12 @@ def rt_combination(req):
     """C13: wrappers.Combination: result = each function applied in turn to the first argument; its signature is
     sound when the combined functions use parameter names in consistent roles"""
     from . import progs, oracles as O
-    _, flist = req
+    flist = req[1]
+    firsts = req[2] if len(req) > 2 else ('arg',) * len(flist)     # name of each function's first parameter
     lines = ['from sigtools import wrappers']
     for i, ps in enumerate(flist):
-        full = [core.P('arg', 'pk')] + list(ps)
-        lines += core.def_source(full, name='c%d' % i, body='return (%d, arg)' % i).rstrip('\n').split('\n')
+        full = [core.P(firsts[i], 'pk')] + list(ps)
+        lines += core.def_source(full, name='c%d' % i, body='return (%d, %s)' % (i, firsts[i])).rstrip('\n').split('\n')
     lines += ['comb = wrappers.Combination(%s)' % ', '.join('c%d' % i for i in range(len(flist)))]
     src = '\n'.join(lines) + '\n'
     mod, fname = progs.load_module(src)
@@ -939,22 +1001,21 @@ def rt_combination(req):
             except ValueError:
                 return ('ok', (), 'incompatible')
         R = [(p.name, core.KIND_NAME[p.kind], None if p.default is p.empty else 1) for p in sig.parameters.values()]
-        ins = [[('arg', 'pk', None)] + [(p[0], p[1], p[2]) for p in ps] for ps in flist]
-        rc = O.role_cons(ins)
+        # Combination.__call__(self, arg, *args, **kwargs) itself is one of the combined signatures
+        ins = [[('arg', 'pk', None), ('args', 'vp', None), ('kwargs', 'vk', None)]] + \
+              [[(firsts[i], 'pk', None)] + [(p[0], p[1], p[2]) for p in ps] for i, ps in enumerate(flist)]
+        rc = O.role_cons(ins[1:]) and len(set(firsts)) == 1
         ran = 0
         for n, K in O.shapes_for(ins + [R], foreign=('zz',), maxk=3):
-            if 'arg' in K:
-                continue
             a = tuple(100 + i for i in range(n))
             k = {x: 200 for x in K}
 
-            def hand():
-                arg = a[0]
+            def hand(arg, *args, **kwargs):        # the composition, written by hand
                 for i in range(len(flist)):
-                    arg = getattr(mod, 'c%d' % i)(arg, *a[1:], **k)
+                    arg = getattr(mod, 'c%d' % i)(arg, *args, **kwargs)
                 return arg
             try:
-                want = ('ok', hand()) if n >= 1 else ('typeerror',)
+                want = ('ok', hand(*a, **k))
             except TypeError:
                 want = ('typeerror',)
             try:
